@@ -48,8 +48,11 @@ def run(tier):
         fmts += (["xlsx>json"] if k % 3 == 0 else []) + (["json>xlsx"] if k % 3 == 1 else [])
         tasks.append(dict(kind="rt", sid="rt[%s]" % c, case=c, formats=fmts, solve=True))
     for c in stock[:3 if quick else 12]:
-        tasks.append(dict(kind="rt", sid="rt-altered[%s]" % c, case=c, formats=["json", "xlsx"], solve=False,
-                          alter=[("PQ", "p0", None, 1.2345)]))
+        # what a writer produces must depend on the current parameters only, not on which writer ran before (a writer that
+        # refreshes a shared table hides a stale one in the next): every format alone and in both orders
+        for fm in (["xlsx"], ["json"], ["json", "xlsx"], ["xlsx", "json"]):
+            tasks.append(dict(kind="rt", sid="rt-altered[%s|%s]" % (c, ",".join(fm)), case=c, formats=fm, solve=(fm == ["xlsx"]),
+                              alter=[("PQ", "p0", None, 1.2345), ("PQ", "q0", None, 0.5), ("Line", "u", None, 0), ("PV", "v0", None, 1.02)]))
     for k in range(10 if quick else 80):
         idx_kind = ["int", "str", "auto"][k % 3]
         spec = dyn_network(rnd, k, idx_kind, False, rnd.randint(0, 10 ** 6)) if k % 2 else pfdrv.network_spec(500 + k, ["int", "str"][k % 2], 1 + k % 3, k)
